@@ -2,10 +2,12 @@
 # sweep.sh <tier> <seed>...   runs every check at the given seeds; prints one line per (check, seed)
 cd "$(dirname "$0")/.."
 TIER=${1:-quick}; shift
+bad=0
 for s in "$@"; do
   for i in 01 02 03 04 05 06 07 08 09 10 11 12 13 14 15 16 17 18 19 20; do
     out=$(VERIF_SEED=$s ./check C$i $TIER 2>&1); rc=$?
     echo "seed=$s C$i rc=$rc $(echo "$out" | grep -c '^KNOWN-FINDING') known; $(echo "$out" | tail -1 | cut -c1-160)"
-    [ $rc -ne 0 ] && echo "$out" | grep -v '^KNOWN' | head -12 | cut -c1-400
+    if [ $rc -ne 0 ]; then bad=1; echo "$out" | grep -v '^KNOWN' | head -12 | cut -c1-400; fi
   done
 done
+exit $bad
